@@ -11,7 +11,7 @@ fn show_player(p: &Player) -> String {
 
 fn show_team(t: &Team) -> String { format!("({};{})", show_str(&t.name), t.score) }
 
-fn show_response(r: &Response) -> String {
+pub fn show_response(r: &Response) -> String {
     format!(
         "G2{{{}}} T{} P{} U{}",
         [
